@@ -85,6 +85,10 @@ type bodyCase struct {
 	// irrelevant — so the case line carries an empty script.
 	Real   bool  `json:",omitempty"`
 	Chunks []int `json:",omitempty"`
+	// Outer: a second, router-wide bodylimit.New(WithLimit(Outer)) in front of the route-level one (Limit).
+	// Two stacked limiters with different limits behave like one with the smaller limit (the case line
+	// carries min(Outer, Limit)); only with a well-behaved transport and Outer != Limit.
+	Outer int64 `json:",omitempty"`
 }
 
 var errTransport = errors.New("transport failure")
@@ -221,6 +225,20 @@ func genBody(r *hx.Rand) *bodyCase {
 		c.CL = &s
 	}
 	c.Skip = r.Chance(1, 12)
+	if !c.Skip && !ill && r.Chance(1, 6) {
+		wb := true
+		for _, st := range c.Script {
+			if st.K != "D" {
+				wb = false
+			}
+		}
+		if wb {
+			c.Outer = c.Limit + int64(hx.Pick(r, []int{1, 2, 5, 100, -1, -2}))
+			if c.Outer < 1 {
+				c.Outer = c.Limit + 3
+			}
+		}
+	}
 	if r.Chance(1, 25) {
 		c.Real, c.Script, c.EofWithLast = true, nil, false
 		if c.CL != nil {
@@ -235,7 +253,11 @@ func genBody(r *hx.Rand) *bodyCase {
 }
 
 func (c *bodyCase) emit(id string, st *hx.Stats) string {
-	l := hx.NewLine(id).Tok("B").Nat(int(c.Limit)).Bool(c.Skip)
+	eff := c.Limit
+	if c.Outer > 0 && c.Outer < eff {
+		eff = c.Outer
+	}
+	l := hx.NewLine(id).Tok("B").Nat(int(eff)).Bool(c.Skip)
 	declared := "absent"
 	if c.CL == nil || *c.CL == "" {
 		l.Tok("A")
@@ -288,9 +310,15 @@ func (c *bodyCase) emit(id string, st *hx.Stats) string {
 	realErr := false
 	panicked := guard(func() {
 		r := router.MustNew()
-		r.Use(bodylimit.New(opts...))
+		chain := []router.HandlerFunc{}
+		if c.Outer > 0 {
+			r.Use(bodylimit.New(bodylimit.WithLimit(c.Outer))) // router-wide, generous or tight
+			chain = append(chain, bodylimit.New(opts...))       // route-level
+		} else {
+			r.Use(bodylimit.New(opts...))
+		}
 		fuel := len(c.Body) + len(c.Script) + 3
-		r.POST("/up", func(ctx *router.Context) {
+		chain = append(chain, func(ctx *router.Context) {
 			ran = true
 			buf := make([]byte, 1024)
 			for i := 0; i < fuel; i++ {
@@ -314,6 +342,7 @@ func (c *bodyCase) emit(id string, st *hx.Stats) string {
 				}
 			}
 		})
+		r.POST("/up", chain...)
 		if c.Real {
 			srv := httptest.NewServer(r)
 			defer srv.Close()
@@ -377,6 +406,9 @@ func (c *bodyCase) emit(id string, st *hx.Stats) string {
 		if c.Real {
 			st.Count("B.real_http_server_transport")
 		}
+		if c.Outer > 0 {
+			st.Count("B.two_stacked_limiters")
+		}
 		if boundaryAtLimit {
 			st.Count("B.chunk_boundary_at_limit")
 		}
@@ -394,7 +426,14 @@ type authCase struct {
 	Users [][2]B
 	Realm B
 	Auth  *B // nil = no header
+	// Skip: basicauth.WithSkipPaths(...); Target: the request target as sent on the request line ("" = /p)
+	Skip   []string `json:",omitempty"`
+	Target string   `json:",omitempty"`
 }
+
+var authSkipPool = []string{"/health", "/public/", "/reports/../health", "/p", "/a/b", "/"}
+var authTargetPool = []string{"/health", "/health/", "/reports/../health", "/reports/%2e%2e/health", "/reports/%2E%2E/health", "//health",
+	"/Health", "/public/../admin", "/public/", "/public", "/public/x", "/p", "/a/./b", "/a//b", "/a/b", "/a/b/../../health", "/./health", "/health?x=/public/", "/"}
 
 var userPool = [][2]string{
 	{"admin", "secret"}, {"user", "pass"}, {"", "empty-user"}, {"nopass", ""}, {"colon", "a:b:c"},
@@ -405,6 +444,13 @@ func b64(s string) string { return base64.StdEncoding.EncodeToString([]byte(s)) 
 
 func genAuth(r *hx.Rand) *authCase {
 	c := &authCase{Realm: B(hx.Pick(r, []string{"Restricted", "", "a\"b", "Admin Area"}))}
+	if r.Chance(1, 4) {
+		// skip paths and request paths that are equal only after cleaning / decoding / case folding
+		for i, n := 0, r.Range(1, 3); i < n; i++ {
+			c.Skip = append(c.Skip, hx.Pick(r, authSkipPool))
+		}
+		c.Target = hx.Pick(r, authTargetPool)
+	}
 	perm := append([][2]string(nil), userPool...)
 	hx.Shuffle(r, perm)
 	nu := r.Range(0, 5)
@@ -494,7 +540,25 @@ func (c *authCase) emit(id string, st *hx.Stats) string {
 		keys = append(keys, k)
 	}
 	sort.Strings(keys)
-	l := hx.NewLine(id).Tok("A").Nat(len(keys))
+	// the request, parsed by net/http itself; skip = the path is literally one of the configured skip paths
+	target := c.Target
+	if target == "" {
+		target = "/p"
+	}
+	areq, rerr := http.ReadRequest(bufio.NewReader(strings.NewReader("GET " + target + " HTTP/1.1\r\nHost: site.example\r\n\r\n")))
+	if rerr != nil {
+		if st != nil {
+			st.Count("A.discarded_unparsable_target")
+		}
+		return ""
+	}
+	skip := false
+	for _, sp := range c.Skip {
+		if sp == areq.URL.Path {
+			skip = true
+		}
+	}
+	l := hx.NewLine(id).Tok("A").Bool(skip).Nat(len(keys))
 	for _, k := range keys {
 		l.Str(k).Str(users[k])
 	}
@@ -521,12 +585,18 @@ func (c *authCase) emit(id string, st *hx.Stats) string {
 	rec := httptest.NewRecorder()
 	panicked := guard(func() {
 		r := router.MustNew()
-		r.Use(basicauth.New(basicauth.WithUsers(users), basicauth.WithRealm(string(c.Realm))))
-		r.GET("/p", func(ctx *router.Context) {
+		aopts := []basicauth.Option{basicauth.WithUsers(users), basicauth.WithRealm(string(c.Realm))}
+		if len(c.Skip) > 0 {
+			aopts = append(aopts, basicauth.WithSkipPaths(c.Skip...))
+		}
+		r.Use(basicauth.New(aopts...))
+		h := func(ctx *router.Context) {
 			ran = true
 			seenUser = basicauth.Username(ctx)
-		})
-		req := httptest.NewRequest(http.MethodGet, "/p", nil)
+		}
+		r.GET("/", h)
+		r.GET("/*", h)
+		req := areq
 		if c.Auth != nil {
 			req.Header["Authorization"] = []string{auth}
 		}
@@ -558,6 +628,12 @@ func (c *authCase) emit(id string, st *hx.Stats) string {
 		} else {
 			st.Count("A.rejected")
 		}
+		if len(c.Skip) > 0 {
+			st.Count("A.with_skip_paths")
+			if skip {
+				st.Count("A.path_is_a_skip_path")
+			}
+		}
 	}
 	return l.String() + hx.Comment(caseT{Kind: "A", Auth: c})
 }
@@ -579,6 +655,7 @@ type corsCase struct {
 }
 
 var originPool = []string{
+	"https://*.example.com", "https://evilexample.com", "https://evil-example.com", "https://a.example.com", "https://example.com", "*.example.com",
 	"https://app.example.com", "https://evil.example.org", "http://app.example.com", "https://app.example.com:8443",
 	"*", "null", "https://APP.example.com", "https://app.example.com/", " https://app.example.com", "https://sub.app.example.com",
 	"https://xn--e1afmkfd.example", "file://", "https://app.example.com.evil.org", "https://例え.example", "\x00",
@@ -1391,6 +1468,9 @@ func fixedCases() []caseT {
 		{Kind: "A", Auth: &authCase{Users: [][2]B{{B("colon"), B("a:b:c")}}, Realm: B("Restricted"), Auth: bp("Basic " + b64("colon:a:b:c"))}},
 		{Kind: "A", Auth: &authCase{Users: [][2]B{{B("admin"), B("secret")}}, Realm: B("Restricted"), Auth: bp("basic " + b64("admin:secret"))}},
 		{Kind: "A", Auth: &authCase{Users: [][2]B{{B("a:b"), B("x")}, {B("a"), B("b:x")}}, Realm: B("Restricted"), Auth: bp("Basic " + b64("a:b:x"))}},
+		// skip paths are literal: a path that only cleans to a skip path is still protected
+		{Kind: "A", Auth: &authCase{Users: [][2]B{{B("admin"), B("secret")}}, Realm: B("Restricted"), Skip: []string{"/health"}, Target: "/reports/../health"}},
+		{Kind: "A", Auth: &authCase{Users: [][2]B{{B("admin"), B("secret")}}, Realm: B("Restricted"), Skip: []string{"/health"}, Target: "/health"}},
 		// method override: GET is not an allowed source; TRACE is not an allowed target
 		{Kind: "M", Meth: &methodCase{Method: "GET", Hdr: map[string]B{"X-HTTP-Method-Override": B("DELETE")}}},
 		{Kind: "M", Meth: &methodCase{Method: "POST", Hdr: map[string]B{"X-HTTP-Method-Override": B("TRACE")}}},
